@@ -44,6 +44,18 @@ Theorem c08_only_watchers_get_rows : forall c cs items w x,
   ~ In w (watchers_of x (c_watchers c)) -> rows c cs items w x = [].
 Proof. exact rows_of_stranger. Qed.
 
+(** Every watcher of the signal gets every point, whoever it is: a plain
+    observer, or an auditor (a member that only mentions the signal in an
+    expression) - whether or not that auditor is auditing when the line
+    arrives.  [c08_one_point_per_match] already holds for every watcher [w] of
+    every configuration (auditors with any activation condition included);
+    this says it without even the condition on the audition's status. *)
+Theorem c08_every_watcher_gets_every_point : forall c cs items w1 w2 x,
+  NoDup (watchers_of x (c_watchers c)) ->
+  In w1 (watchers_of x (c_watchers c)) -> In w2 (watchers_of x (c_watchers c)) ->
+  rows c cs items w1 x = rows c cs items w2 x.
+Proof. exact all_watchers_same_rows. Qed.
+
 (** The i-th row carries the i-th good line's datum: the captured text for an
     event, the number for a scalar, and for a delta the number minus the
     number of the previous good line — the very first delta being relative to
@@ -193,6 +205,25 @@ Example c08_ex_siblings_own_last_value :
                ILine "db2" {| l_now := 4; l_facts := [("load", fct "1.75" "1005")] |} ] in
   map q3 (rows ex_cfg ex_cast its "bob" ("db1", "load")) = [ (1 # 2, VNum 10); (3 # 2, VNum 10) ]%Q
   /\ map q3 (rows ex_cfg ex_cast its "bob" ("db2", "load")) = [ (3 # 4, VNum 1000); (7 # 4, VNum 5) ]%Q.
+Proof. vm_compute. split; reflexivity. Qed.
+
+(** An auditor with a conditional activation period (only while the load's
+    delta is >= 3), sole watcher of db2's load: it gets the points of the lines
+    that arrive outside its period and of the line that opens it, too. *)
+Definition ex_cfg_auditor : acfg :=
+  {| c_members := [ {| m_name := "cand";
+                       m_cond := EBin OGe (EVar ("db2", "load")) (EConst (VNum 3));
+                       m_assigns := []; m_expect := None |} ];
+     c_watchers := [(("db2", "load"), ["cand"])];
+     c_init := [] |}.
+Example c08_ex_auditor_outside_its_period :
+  let its := [ ILine "db2" {| l_now := 1; l_facts := [("load", fct "1" "1")] |};
+               ILine "db2" {| l_now := 2; l_facts := [("load", fct "2" "3")] |};
+               ILine "db2" {| l_now := 3; l_facts := [("load", fct "3" "7")] |};
+               ILine "db2" {| l_now := 4; l_facts := [("load", fct "4" "8")] |} ] in
+  map q3 (rows ex_cfg_auditor ex_cast its "cand" ("db2", "load"))
+  = [ (1, VNum 1); (2, VNum 2); (3, VNum 4); (4, VNum 1) ]%Q
+  /\ snd (play ex_cfg_auditor ex_cast its) = Running.
 Proof. vm_compute. split; reflexivity. Qed.
 
 Example c08_ex_premises_hold :
